@@ -145,7 +145,7 @@ func (p *Peer) Close() {
 		a.rst = true
 		ev |= EPOLLERR | EPOLLHUP
 	}
-	if a.wclosed {
+	if a.wclosed || a.unix {
 		ev |= EPOLLHUP
 	}
 	e.rcv = nil
